@@ -111,20 +111,74 @@ fn renderings(secret: &[u8]) -> Vec<String> {
     vec![hexl.clone(), hexl.to_uppercase(), hexr.clone(), hexr.to_uppercase(), dec, BASE64_STANDARD.encode(secret)]
 }
 
+/// does `text` contain the secret in a recoverable form? literal renderings (hex, decimal list, base64), the byte
+/// sequence among the decimal numbers of the text however they are separated (pretty-printed arrays), and any
+/// base64 or hex run of the text that decodes to bytes containing an 8-byte window of the secret (the secret may sit
+/// at any offset inside a longer encoded buffer)
+fn leaks(text: &str, secret: &[u8]) -> bool {
+    use base64::Engine;
+    if secret.iter().all(|b| *b == 0) { return false; }
+    for r in renderings(secret) {
+        if r.len() >= 8 && text.contains(&r) { return true; }
+    }
+    let window_in = |hay: &[u8]| -> bool {
+        secret.len() >= 8 && (0..=secret.len() - 8).any(|j| {
+            let w = &secret[j..j + 8];
+            w.iter().filter(|b| **b != 0).count() >= 4 && hay.windows(8).any(|x| x == w)
+        })
+    };
+    // decimal numbers in order
+    let nums: Vec<u8> = text.split(|c: char| !c.is_ascii_digit()).filter(|t| !t.is_empty() && t.len() <= 3)
+        .filter_map(|t| t.parse::<u16>().ok()).filter(|n| *n <= 255).map(|n| n as u8).collect();
+    if window_in(&nums) { return true; }
+    // base64 runs, every alignment
+    let lenient = base64::engine::GeneralPurpose::new(&base64::alphabet::STANDARD,
+        base64::engine::GeneralPurposeConfig::new().with_decode_allow_trailing_bits(true)
+            .with_decode_padding_mode(base64::engine::DecodePaddingMode::Indifferent));
+    let is_b64 = |c: char| c.is_ascii_alphanumeric() || c == '+' || c == '/' || c == '-' || c == '_';
+    for run in text.split(|c: char| !is_b64(c)).filter(|t| t.len() >= 12) {
+        let run = run.replace('-', "+").replace('_', "/");
+        for skip in 0..4 {
+            if run.len() <= skip { break; }
+            let t = &run[skip..];
+            let t = &t[..t.len() - t.len() % 4];
+            if let Ok(bytes) = lenient.decode(t) { if window_in(&bytes) { return true; } }
+        }
+    }
+    // hex runs, both nibble alignments
+    for run in text.split(|c: char| !c.is_ascii_hexdigit()).filter(|t| t.len() >= 16) {
+        for skip in 0..2 {
+            let t = &run[skip..];
+            let bytes: Vec<u8> = (0..t.len() / 2).filter_map(|i| u8::from_str_radix(&t[2 * i..2 * i + 2], 16).ok()).collect();
+            if window_in(&bytes) { return true; }
+            let mut rev = bytes.clone(); rev.reverse();
+            if window_in(&rev) { return true; }
+        }
+    }
+    false
+}
+
 pub fn op_debug(a: &[&str]) -> String {
     let [ty, h] = a else { return "bad-op".into() };
     let Some(b) = unhex(h) else { return "bad-op".into() };
-    let (text, secret): (String, Vec<u8>) = match *ty {
-        "secret" => match ElGamalSecretKey::try_from(b.as_slice()) { Ok(k) => (format!("{:?}", k), b.clone()), Err(_) => return "bad-op".into() },
-        "opening" => match PedersenOpening::from_bytes(&b) { Some(o) => (format!("{:?}", o), b.clone()), None => return "bad-op".into() },
-        "aekey" => match AeKey::try_from(b.as_slice()) { Ok(k) => (format!("{:?}", k), b.clone()), Err(_) => return "bad-op".into() },
-        "keypair" => match ElGamalSecretKey::try_from(b.as_slice()) { Ok(k) => (format!("{:?} {:#?}", ElGamalKeypair::new(k.clone()), ElGamalKeypair::new(k)), b.clone()), Err(_) => return "bad-op".into() },
+    // `text` is what `{:?}` prints (compared with the model's template); `all` collects every other Debug rendering
+    // reachable from safe code: alternate, width / precision flags, nested in Option / Vec / tuple / Box
+    macro_rules! render { ($v:expr) => {{
+        let v = $v;
+        let text = format!("{:?}", v);
+        let nested = (Some(&v), vec![&v], Box::new(&v));
+        let all = format!("{:?}|{:#?}|{:10?}|{:<40?}|{:.3?}|{:#x?}|{:#X?}|{:?}|{:#?}", v, v, v, v, v, v, v, nested, nested);
+        (text, all)
+    }} }
+    let (text, all, secret): (String, String, Vec<u8>) = match *ty {
+        "secret" => match ElGamalSecretKey::try_from(b.as_slice()) { Ok(k) => { let (t, a) = render!(k); (t, a, b.clone()) } Err(_) => return "bad-op".into() },
+        "opening" => match PedersenOpening::from_bytes(&b) { Some(o) => { let (t, a) = render!(o); (t, a, b.clone()) } None => return "bad-op".into() },
+        "aekey" => match AeKey::try_from(b.as_slice()) { Ok(k) => { let (t, a) = render!(k); (t, a, b.clone()) } Err(_) => return "bad-op".into() },
+        "keypair" => match ElGamalSecretKey::try_from(b.as_slice()) { Ok(k) => { let (t, a) = render!(ElGamalKeypair::new(k)); (t, a, b.clone()) } Err(_) => return "bad-op".into() },
         _ => return "bad-op".into(),
     };
-    for r in renderings(&secret) {
-        if r.len() >= 8 && text.contains(&r) {
-            return "leak".into();
-        }
+    if leaks(&all, &secret) {
+        return "leak".into();
     }
     if *ty == "keypair" {
         // the public key is printed (field elements of the point), the secret is redacted
